@@ -758,17 +758,19 @@ func (vc *FnVC) wfHeap(st *State, key string) string {
 	}
 	t := vc.get(st, key)
 	a := vc.allocTerm(st)
+	// only cells of ALLOCATED objects are constrained: the cells of objects not allocated yet stay arbitrary -- callee
+	// postconditions about the fields of the objects a callee allocates are stated over those very cells
 	switch {
 	case ki.Sort == "(Array Int Slice)":
-		return fmt.Sprintf("(forall ((r Int)) (! (and (<= (s.base (select %s r)) %s) (<= (ref.root (s.base (select %s r))) %s)) :pattern ((select %s r))))", t, a, t, a, t)
+		return fmt.Sprintf("(forall ((r Int)) (! (=> (<= (ref.root r) %s) (and (<= (s.base (select %s r)) %s) (<= (ref.root (s.base (select %s r))) %s))) :pattern ((select %s r))))", a, t, a, t, a, t)
 	case strings.HasPrefix(ki.Sort, "(Array Int (Array ") && strings.HasSuffix(ki.Sort, " Slice))"):
 		ks := strings.TrimSuffix(strings.TrimPrefix(ki.Sort, "(Array Int (Array "), " Slice))")
 		if strings.ContainsAny(ks, "()") {
 			return "true"
 		}
-		return fmt.Sprintf("(forall ((r Int) (k %s)) (! (and (<= (s.base (select (select %s r) k)) %s) (<= (ref.root (s.base (select (select %s r) k))) %s)) :pattern ((select (select %s r) k))))", ks, t, a, t, a, t)
+		return fmt.Sprintf("(forall ((r Int) (k %s)) (! (=> (<= (ref.root r) %s) (and (<= (s.base (select (select %s r) k)) %s) (<= (ref.root (s.base (select (select %s r) k))) %s))) :pattern ((select (select %s r) k))))", ks, a, t, a, t, a, t)
 	case ki.Sort == "(Array Int Int)" && (ki.Ref || strings.HasPrefix(ki.GoType, "*") || strings.HasPrefix(ki.GoType, "map[")):
-		return fmt.Sprintf("(forall ((r Int)) (! (and (<= (select %s r) %s) (<= (ref.root (select %s r)) %s)) :pattern ((select %s r))))", t, a, t, a, t)
+		return fmt.Sprintf("(forall ((r Int)) (! (=> (<= (ref.root r) %s) (and (<= (select %s r) %s) (<= (ref.root (select %s r)) %s))) :pattern ((select %s r))))", a, t, a, t, a, t)
 	}
 	return "true"
 }
